@@ -132,6 +132,10 @@ func (n *EvalUnaryNode) EvalBool(scope *Scope, executionState ExecutionState) (b
 		return false, err
 	}
 	if typ == ast.TBool {
+		if n.operator != ast.TokenNot {
+			// only "!" applies to booleans: -TRUE and -"flag" used to evaluate as !TRUE and !"flag"
+			return false, fmt.Errorf("invalid unary operator %v for type %s", n.operator, typ)
+		}
 		result, err := n.nodeEvaluator.EvalBool(scope, executionState)
 		if err != nil {
 			return false, err
